@@ -47,7 +47,7 @@ fn uni_args(prefix: &str, extra: &[&str]) -> String {
 }
 
 fn hostile_path(rng: &mut Rng) -> String {
-    let pieces = ["..", "../..", "../../../outside/x", "/..", "a/../../..", "/outside/x", "./..", "a/./../..", "../r", "..//..", "/a/../../outside", "a/b/../../../.."];
+    let pieces = ["..\\x", "a\\..\\..\\y", "\\..\\z", "..\\..\\outside\\x", "..", "../..", "../../../outside/x", "/..", "a/../../..", "/outside/x", "./..", "a/./../..", "../r", "..//..", "/a/../../outside", "a/b/../../../.."];
     rng.pick(&pieces[..]).to_string()
 }
 
@@ -164,6 +164,19 @@ pub fn run(o: &Opts) -> Report {
                     target = fs(&mut lines, format!("ovl {}", layer_args.join(" ")));
                 }
                 overlay_upper = Some(first_direct);
+                // "all pre-populated layer contents" includes an upper layer that already holds
+                // bookkeeping: now and then a marker for a path the upper layer ALSO holds (what an
+                // interrupted re-creation leaves behind), written directly into the first layer.
+                // Whatever the overlay makes of it, its observers must not write.
+                if *cfg_kind != "ovl(alt,alt)" && *cfg_kind != "ovl(ovl,mem)" && rng.chance(1, 3) {
+                    let held: Vec<&String> = contents[0].keys().collect();
+                    if !held.is_empty() {
+                        let x = (*rng.pick(&held[..])).clone();
+                        let par = crate::tree_stream::parent_of(&x);
+                        lines.push(L { both: true, text: format!("op {} create_dir_all {}", first_direct, enc_str(&format!("/.whiteout{}", par))) });
+                        lines.push(L { both: true, text: format!("op {} write {} {}", first_direct, enc_str(&format!("/.whiteout{}_wo", x)), enc_bytes(b"")) });
+                    }
+                }
             } else {
                 // C07
                 let p = *rng.pick(&["", "/r", "/r/s", "/r/s/t.u"][..]);
